@@ -471,13 +471,13 @@ Qed.
 Lemma in_range_int32_wrap64 z : (- 2 ^ 31 <=? z) && (z <=? 2 ^ 31 - 1) = true -> wrap_k KInt64 z = z.
 Proof. intros H. apply wrap_k_id. unfold in_range_k. cbn. lia. Qed.
 
-Ltac done_val := eexists; split; [reflexivity | split; [reflexivity | apply xeqv_plain_refl; reflexivity]].
+Ltac done_val := eexists; split; [reflexivity | split; [reflexivity | intros ?n; apply xeqv_plain_refl; reflexivity]].
 
 Lemma simple_arm_value orc te t s w v :
   law_uuid orc -> simple_type t = true -> sleaf_of t = Some s ->
   scalar_tok w = true -> wf_tok w = true ->
   rep_scalar orc t (den w) = RSome v ->
-  exists v', run_action orc s (arm s w) w = SV v' /\ plain (post te s t v') = true /\ xeqv spec_fuel (post te s t v') v = true.
+  exists v', run_action orc s (arm s w) w = SV v' /\ plain (post te s t v') = true /\ forall n, xeqv (S n) (post te s t v') v = true.
 Proof.
   intros Hlaw Ht Hs Hsc Hw Hr.
   destruct t; try discriminate; cbn in Hs; inversion Hs; subst s; clear Hs.
@@ -489,13 +489,13 @@ Proof.
   all: try (inversion Hr; subst; done_val).
   all: try (cbn in Hw; split_digit d Hw; inversion Hr; subst; done_val).
   - (* string <- guid *) cbn in Hw. rewrite Hw in Hr. inversion Hr; subst.
-    eexists; split; [cbn; rewrite Hw; reflexivity | split; [reflexivity | apply xeqv_plain_refl; reflexivity]].
+    eexists; split; [cbn; rewrite Hw; reflexivity | split; [reflexivity | intros ?n; apply xeqv_plain_refl; reflexivity]].
   - (* bytes <- s *) inversion Hr; subst. destruct str; eexists; (split; [reflexivity | split; [reflexivity|]]).
-    + reflexivity.
-    + apply xeqv_plain_refl; reflexivity.
+    + intros n; reflexivity.
+    + intros n; apply xeqv_plain_refl; reflexivity.
   - (* bigint <- i *) inversion Hr; subst. cbn in Hw.
     eexists; split; [reflexivity | split; [reflexivity|]]. cbn [post]. 
-    change (wrap_s 64 z) with (wrap_k KInt64 z). rewrite (in_range_int32_wrap64 z Hw). apply xeqv_plain_refl; reflexivity.
+    change (wrap_s 64 z) with (wrap_k KInt64 z). rewrite (in_range_int32_wrap64 z Hw). intros n; apply xeqv_plain_refl; reflexivity.
   - (* bigint <- d *) unfold bigint_of_double, of_o in Hr.
     destruct (o_text orc (bs "bf") txt) as [t1| |] eqn:E1; try discriminate.
     destruct (o_int orc (bs "bfint") txt) as [z| |] eqn:E2; try discriminate.
@@ -504,48 +504,48 @@ Proof.
     assert (E : run_action orc SBigIntV (arm SBigIntV (WDouble txt)) (WDouble txt) =
                 lift (o_text orc (bs "bf") txt) (fun _ => lift (o_int orc (bs "bfint") txt) (fun z => SV (XPtr (XBigInt z)))))
       by reflexivity.
-    eexists; split; [rewrite E, E1; cbn [lift]; rewrite E2; reflexivity | split; [reflexivity | apply xeqv_plain_refl; reflexivity]].
+    eexists; split; [rewrite E, E1; cbn [lift]; rewrite E2; reflexivity | split; [reflexivity | intros ?n; apply xeqv_plain_refl; reflexivity]].
   - (* bigint <- u *) destruct (parse_int c) as [z|] eqn:E; [|destruct c; discriminate]. inversion Hr; subst.
     assert (E0 : run_action orc SBigIntV (arm SBigIntV (WChar c)) (WChar c) = parse_str orc PBigInt 0 NtBigInt c) by reflexivity.
-    eexists; split; [rewrite E0; unfold parse_str; rewrite E; reflexivity | split; [reflexivity | apply xeqv_plain_refl; reflexivity]].
+    eexists; split; [rewrite E0; unfold parse_str; rewrite E; reflexivity | split; [reflexivity | intros ?n; apply xeqv_plain_refl; reflexivity]].
   - (* bigint <- s *) destruct (parse_int str) as [z|] eqn:E; [|destruct str; discriminate]. inversion Hr; subst.
     assert (E0 : run_action orc SBigIntV (arm SBigIntV (WStr str)) (WStr str) = parse_str orc PBigInt 0 NtBigInt str) by reflexivity.
-    eexists; split; [rewrite E0; unfold parse_str; rewrite E; reflexivity | split; [reflexivity | apply xeqv_plain_refl; reflexivity]].
+    eexists; split; [rewrite E0; unfold parse_str; rewrite E; reflexivity | split; [reflexivity | intros ?n; apply xeqv_plain_refl; reflexivity]].
   - (* bigrat <- i *) inversion Hr; subst. cbn in Hw.
     eexists; split; [reflexivity | split; [reflexivity|]]. cbn [post].
-    change (wrap_s 64 z) with (wrap_k KInt64 z). rewrite (in_range_int32_wrap64 z Hw). apply xeqv_plain_refl; reflexivity.
+    change (wrap_s 64 z) with (wrap_k KInt64 z). rewrite (in_range_int32_wrap64 z Hw). intros n; apply xeqv_plain_refl; reflexivity.
   - (* bigrat <- d *) unfold of_o in Hr.
     destruct (o_float orc false txt) as [f0| |] eqn:E1; try discriminate.
     destruct (o_text orc (bs "ratf") txt) as [t1| |] eqn:E2; try discriminate. inversion Hr; subst.
     assert (E : run_action orc SBigRatV (arm SBigRatV (WDouble txt)) (WDouble txt) = conv_float orc false NtBigRat txt) by reflexivity.
     eexists; split; [rewrite E; unfold conv_float; rewrite E1; cbn [lift]; rewrite E2; reflexivity
-                    | split; [reflexivity | apply xeqv_plain_refl; reflexivity]].
+                    | split; [reflexivity | intros ?n; apply xeqv_plain_refl; reflexivity]].
   - (* bigrat <- u *) unfold of_o in Hr. destruct (o_text orc (bs "rat") c) as [t1| |] eqn:E1; try discriminate;
       [|destruct c; discriminate]. inversion Hr; subst.
     assert (E : run_action orc SBigRatV (arm SBigRatV (WChar c)) (WChar c) = parse_str orc PBigRat 0 NtBigRat c) by reflexivity.
-    eexists; split; [rewrite E; unfold parse_str; rewrite E1; reflexivity | split; [reflexivity | apply xeqv_plain_refl; reflexivity]].
+    eexists; split; [rewrite E; unfold parse_str; rewrite E1; reflexivity | split; [reflexivity | intros ?n; apply xeqv_plain_refl; reflexivity]].
   - (* bigrat <- s *) unfold of_o in Hr. destruct (o_text orc (bs "rat") str) as [t1| |] eqn:E1; try discriminate;
       [|destruct str; discriminate]. inversion Hr; subst.
     assert (E : run_action orc SBigRatV (arm SBigRatV (WStr str)) (WStr str) = parse_str orc PBigRat 0 NtBigRat str) by reflexivity.
-    eexists; split; [rewrite E; unfold parse_str; rewrite E1; reflexivity | split; [reflexivity | apply xeqv_plain_refl; reflexivity]].
+    eexists; split; [rewrite E; unfold parse_str; rewrite E1; reflexivity | split; [reflexivity | intros ?n; apply xeqv_plain_refl; reflexivity]].
   - (* time <- D *) cbn in Hw. unfold time_of_dval in Hr. rewrite Hw in Hr. inversion Hr; subst.
     assert (E : run_action orc STime (arm STime (WDate y mo dd tm utc)) (WDate y mo dd tm utc) = read_src orc STime RDate (WDate y mo dd tm utc)) by reflexivity.
     eexists; split; [rewrite E; cbn [read_src]; rewrite Hw; reflexivity | split; [destruct tm as [[[[? ?] ?] ?]|]; reflexivity|]].
-    destruct tm as [[[[? ?] ?] ?]|]; apply xeqv_plain_refl; reflexivity.
+    intros n; destruct tm as [[[[? ?] ?] ?]|]; apply xeqv_plain_refl; reflexivity.
   - (* time <- T *) cbn in Hw. unfold time_of_dval in Hr. rewrite Hw in Hr. inversion Hr; subst.
     assert (E : run_action orc STime (arm STime (WTime h mi sec fr utc)) (WTime h mi sec fr utc) = read_src orc STime RTime (WTime h mi sec fr utc)) by reflexivity.
-    eexists; split; [rewrite E; cbn [read_src]; rewrite Hw; reflexivity | split; [reflexivity | apply xeqv_plain_refl; reflexivity]].
+    eexists; split; [rewrite E; cbn [read_src]; rewrite Hw; reflexivity | split; [reflexivity | intros ?n; apply xeqv_plain_refl; reflexivity]].
   - (* uuid <- u: one character is not a uuid *) exfalso. cbn in Hw. apply Nat.leb_le in Hw.
     destruct (uuid_syntax c) eqn:Eu; [|discriminate]. apply uuid_shape_length in Eu. lia.
   - (* uuid <- s *) destruct (uuid_syntax str) eqn:Eu; [|discriminate]. inversion Hr; subst.
     assert (E : run_action orc SUuid (arm SUuid (WStr str)) (WStr str) = parse_str orc PUuid 0 NtUuid str) by reflexivity.
-    eexists; split; [rewrite E; unfold parse_str; rewrite (Hlaw str Eu); reflexivity | split; [reflexivity | apply xeqv_plain_refl; reflexivity]].
+    eexists; split; [rewrite E; unfold parse_str; rewrite (Hlaw str Eu); reflexivity | split; [reflexivity | intros ?n; apply xeqv_plain_refl; reflexivity]].
   - (* uuid <- b *) destruct (Nat.eqb (length b) 16) eqn:El; [|discriminate]. inversion Hr; subst.
     assert (E : run_action orc SUuid (arm SUuid (WBytes b)) (WBytes b) = read_src orc SUuid RBytes (WBytes b)) by reflexivity.
-    eexists; split; [rewrite E; cbn [read_src]; rewrite El; reflexivity | split; [reflexivity | apply xeqv_plain_refl; reflexivity]].
+    eexists; split; [rewrite E; cbn [read_src]; rewrite El; reflexivity | split; [reflexivity | intros ?n; apply xeqv_plain_refl; reflexivity]].
   - (* uuid <- g *) cbn in Hw. rewrite Hw in Hr. inversion Hr; subst.
     assert (E : run_action orc SUuid (arm SUuid (WGuid g)) (WGuid g) = read_src orc SUuid RGuid (WGuid g)) by reflexivity.
-    eexists; split; [rewrite E; cbn [read_src]; rewrite Hw; reflexivity | split; [reflexivity | apply xeqv_plain_refl; reflexivity]].
+    eexists; split; [rewrite E; cbn [read_src]; rewrite Hw; reflexivity | split; [reflexivity | intros ?n; apply xeqv_plain_refl; reflexivity]].
 Qed.
 
 Definition fits_simple (orc : bytes -> bytes -> option bytes) (t : gtype) (w : wire) : bool :=
@@ -649,7 +649,7 @@ Proof.
   destruct (proved_scalar_leaf t Ht) as [s Hs0].
   destruct (simple_type t) eqn:Est.
   - destruct (simple_arm_value orc te t s w v L2 Est Hs0 Hs Hw Hr) as (v' & Ha & Hp & Hx).
-    exists (post te s t v'). split; [|exact Hx].
+    exists (post te s t v'). split; [|exact (Hx 199%nat)].
     apply (dec_top_scalar_value orc opts te (S f) t w s v' Hsc Hs0 Ha Hp).
   - destruct t; try discriminate. eapply accepts_int; eauto.
 Qed.
@@ -758,4 +758,192 @@ Proof.
   intros Ht. destruct fuel as [|f]; [reflexivity|]. cbn [dec]. unfold dec_step.
   replace (leaf_of r1 t) with (leaf_of r2 t); [reflexivity|].
   destruct t; try discriminate; reflexivity.
+Qed.
+
+
+(* ------------------------------------------------------------------ pointers to scalar destinations *)
+
+(* pointer destinations *T for the scalar types with a decodeXPtr routine *)
+Definition ptr_scalar (t : gtype) : bool :=
+  match t with
+  | TBool | TInt _ | TF32 | TF64 | TC64 | TC128 | TString | TBytes | TTime | TUuid => true
+  | _ => false
+  end.
+
+Lemma ptr_scalar_leaf t : ptr_scalar t = true ->
+  exists s, sleaf_of t = Some s /\ leaf_of RTop (TPtr t) = LSPtr s /\ s <> SIface /\ is_scalar_type t = true /\
+            post = post /\ (forall te v, post te s t v = v).
+Proof.
+  destruct t; cbn; try discriminate; intros _; eexists; (split; [reflexivity|]); (split; [reflexivity|]);
+    (split; [discriminate|]); (split; [reflexivity|]); (split; [reflexivity|]); intros; reflexivity.
+Qed.
+
+Lemma dec_top_ptr_null orc opts te f t :
+  ptr_scalar t = true -> dec_top orc opts te (S (S f)) (TPtr t) WNull = OOk XNil.
+Proof.
+  intros Ht. destruct (ptr_scalar_leaf t Ht) as (s & Hs & Hl & _).
+  unfold dec_top. cbn [st_alloc dinit mem length zero_val]. cbn [dec]. unfold dec_step. rewrite Hl.
+  cbn. reflexivity.
+Qed.
+
+Lemma dec_scalar_value orc opts te rec s t w pl st v :
+  s <> SIface -> run_action orc s (arm s w) w = SV v -> plain (post te s t v) = true ->
+  dec_scalar orc opts te rec s t w pl st = wr_or_panic (add_tok_ref opts st w) pl (post te s t v).
+Proof.
+  intros Hni Hr Hp. unfold dec_scalar, arm in *.
+  destruct s; try contradiction; rewrite Hr; cbn [post] in Hp |- *; rewrite (inject_plain _ _ Hp); reflexivity.
+Qed.
+
+Lemma write_cell1 (st : dstate) a b v : mem st = [a; b] ->
+  exists st', wr_or_panic st (1%nat, []) v = DOk st' /\ mem st' = [a; v].
+Proof. intros Hm. unfold wr_or_panic, st_wr, wr. cbn [fst snd]. rewrite Hm. cbn. eexists. split; reflexivity. Qed.
+
+Lemma write_cell0 (st : dstate) a b v : mem st = [a; b] ->
+  exists st', wr_or_panic st (0%nat, []) v = DOk st' /\ mem st' = [v; b].
+Proof. intros Hm. unfold wr_or_panic, st_wr, wr. cbn [fst snd]. rewrite Hm. cbn. eexists. split; reflexivity. Qed.
+
+Lemma dec_top_ptr_value orc opts te f t w s v :
+  ptr_scalar t = true -> sleaf_of t = Some s -> w <> WNull ->
+  run_action orc s (arm s w) w = SV v -> plain v = true ->
+  dec_top orc opts te (S (S f)) (TPtr t) w = OOk (XPtr v).
+Proof.
+  intros Ht Hs Hn Hr Hp. destruct (ptr_scalar_leaf t Ht) as (s' & Hs' & Hl & Hni & Hsc & _ & Hpost).
+  rewrite Hs in Hs'. inversion Hs'; subst s'.
+  assert (Hp' : plain (post te s t v) = true) by (rewrite Hpost; exact Hp).
+  unfold dec_top. cbn [st_alloc dinit mem length zero_val]. cbn [dec]. unfold dec_step. rewrite Hl.
+  unfold dec_scalar_ptr.
+  destruct w; try congruence;
+    cbn [st_alloc mem refs clss length app];
+    rewrite (dec_scalar_value orc opts te _ s t _ _ _ v Hni Hr Hp'), Hpost;
+    (lazymatch goal with |- context [wr_or_panic (add_tok_ref opts ?st1 ?w) (1%nat, []) v] =>
+       destruct (write_cell1 (add_tok_ref opts st1 w) XNil (zero_of te t) v) as (st2 & E2 & M2);
+         [rewrite mem_add_tok_ref; reflexivity|]; rewrite E2; cbn [bindd];
+       destruct (write_cell0 st2 XNil v (XPtrTo 1 [])) as (st3 & E3 & M3); [exact M2|]; rewrite E3
+     end);
+    unfold st_rd, rd; cbn [fst snd]; rewrite M3; cbn [nth_error rd_path];
+    (change (unfold [XPtrTo 1 []; v] (S (S f)) [] (XPtrTo 1 [])) with (XPtr (unfold [XPtrTo 1 []; v] (S f) [(1%nat, [])] v));
+     rewrite (unfold_plain _ _ _ _ Hp); reflexivity).
+Qed.
+
+(* defaultDecode of a scalar token (not r, c, E): decodeError, whatever the memory *)
+Lemma default_decode_scalar_err orc opts te f t w pl st :
+  oracle_total orc -> scalar_tok w = true -> wf_tok w = true ->
+  exists e, default_decode orc opts te (dec orc opts te (S f)) t w pl st = DErr e.
+Proof.
+  intros Ho Hsc Hw. unfold default_decode.
+  assert (Hd : sw_lookup (model_switch RtDefault) (tag_of w) = ACall FDecodeError).
+  { destruct w as [ | | | | |neg|d|z|z|txt|c|str|b|g|y mo dd tm utc|h mi sec fr utc|ws|ws|n fs nx|k ws|k|w'];
+      try discriminate; try reflexivity. cbn in Hw. split_digit d Hw; reflexivity. }
+  rewrite Hd.
+  destruct w as [ | | | | |neg|d|z|z|txt|c|str|b|g|y mo dd tm utc|h mi sec fr utc|ws|ws|n fs nx|k ws|k|w'];
+    try discriminate; cbv iota beta;
+    unfold decode_error, st_alloc; cbn [mem refs clss];
+    (lazymatch goal with |- context [dec orc opts te (S f) RTop TIface ?w (?c, []) ?st1] =>
+      destruct (iface_scalar_dec orc opts te f w c st1 Ho Hsc Hw) as [(st' & E)|(e & E)];
+        [cbn [mem]; rewrite app_length; cbn; lia | rewrite E | rewrite E]
+    end); eexists; reflexivity.
+Qed.
+
+Lemma dec_scalar_error orc opts te rec s t w pl st e :
+  s <> SIface -> run_action orc s (arm s w) w = SE e -> dec_scalar orc opts te rec s t w pl st = DErr e.
+Proof. intros Hni Hr. unfold dec_scalar, arm in *. destruct s; try contradiction; rewrite Hr; reflexivity. Qed.
+
+Lemma dec_scalar_default orc opts te rec s t w pl st :
+  s <> SIface -> run_action orc s (arm s w) w = SDefaultArm ->
+  dec_scalar orc opts te rec s t w pl st = default_decode orc opts te rec t w pl st.
+Proof. intros Hni Hr. unfold dec_scalar, arm in *. destruct s; try contradiction; rewrite Hr; reflexivity. Qed.
+
+Lemma dec_top_ptr_error orc opts te f t w s e :
+  ptr_scalar t = true -> sleaf_of t = Some s -> w <> WNull ->
+  run_action orc s (arm s w) w = SE e ->
+  dec_top orc opts te (S (S f)) (TPtr t) w = OErr e.
+Proof.
+  intros Ht Hs Hn Hr. destruct (ptr_scalar_leaf t Ht) as (s' & Hs' & Hl & Hni & Hsc & _ & Hpost).
+  rewrite Hs in Hs'. inversion Hs'; subst s'.
+  unfold dec_top. cbn [st_alloc dinit mem length zero_val]. cbn [dec]. unfold dec_step. rewrite Hl.
+  unfold dec_scalar_ptr.
+  destruct w; try congruence; cbn [st_alloc mem refs clss length app];
+    rewrite (dec_scalar_error orc opts te _ s t _ _ _ e Hni Hr); reflexivity.
+Qed.
+
+Lemma dec_top_ptr_default orc opts te f t w s :
+  oracle_total orc -> ptr_scalar t = true -> sleaf_of t = Some s -> w <> WNull ->
+  scalar_tok w = true -> wf_tok w = true ->
+  run_action orc s (arm s w) w = SDefaultArm ->
+  exists e, dec_top orc opts te (S (S f)) (TPtr t) w = OErr e.
+Proof.
+  intros Ho Ht Hs Hn Hsc Hw Hr. destruct (ptr_scalar_leaf t Ht) as (s' & Hs' & Hl & Hni & Hsct & _ & Hpost).
+  rewrite Hs in Hs'. inversion Hs'; subst s'.
+  unfold dec_top. cbn [st_alloc dinit mem length zero_val].
+  change (dec orc opts te (S (S f))) with (dec_step orc opts te (dec orc opts te (S f))).
+  unfold dec_step at 1. rewrite Hl. unfold dec_scalar_ptr.
+  destruct w; try congruence; cbn [st_alloc mem refs clss length app];
+    rewrite (dec_scalar_default orc opts te _ s t _ _ _ Hni Hr);
+    (lazymatch goal with |- context [default_decode orc opts te (dec orc opts te (S f)) ?t0 ?w0 ?pl ?st0] =>
+       destruct (default_decode_scalar_err orc opts te f t0 w0 pl st0 Ho Hsc Hw) as [e E]; rewrite E
+     end); eexists; reflexivity.
+Qed.
+
+(* C06 behind one pointer: *T for T in bool, the integer kinds, string, []byte, time.Time, uuid.UUID *)
+Definition proved_ptr (t : gtype) : bool := proved_scalar t && ptr_scalar t.
+
+Lemma representable_ptr_scalar orc opts te n t w :
+  is_scalar_type t = true -> scalar_tok w = true ->
+  representable orc opts te (S (S n)) (TPtr t) (den w) =
+  match w with WNull => RSome XNil | _ => rep_map XPtr (rep_scalar orc t (den w)) end.
+Proof.
+  intros Ht Hs. destruct w; try discriminate; cbn [den]; cbn [representable]; try reflexivity;
+    rewrite <- (representable_scalar orc opts te n t _ Ht eq_refl) || idtac; destruct t; try discriminate; reflexivity.
+Qed.
+
+Theorem accepts_ptr_scalar orc opts te f t w v :
+  oracle_total orc -> law_f2i orc -> law_uuid orc ->
+  proved_ptr t = true -> scalar_tok w = true -> wf_tok w = true ->
+  representable orc opts te (S (S f)) (TPtr t) (den w) = RSome v ->
+  exists v', dec_top orc opts te (S (S f)) (TPtr t) w = OOk v' /\ xeqv spec_fuel v' v = true.
+Proof.
+  intros Ho L1 L2 Ht Hs Hw Hr. apply andb_prop in Ht. destruct Ht as [Hps Hpt].
+  pose proof (proved_scalar_is_scalar t Hps) as Hsc.
+  rewrite (representable_ptr_scalar orc opts te f t w Hsc Hs) in Hr.
+  destruct (proved_scalar_leaf t Hps) as [s Hs0].
+  assert (Hnull : w = WNull \/ w <> WNull) by (destruct w; (left; reflexivity) || (right; discriminate)).
+  destruct Hnull as [E|Hn].
+  - subst w. inversion Hr; subst. exists XNil. split; [apply dec_top_ptr_null; exact Hpt | reflexivity].
+  - assert (Hr' : exists v0, rep_scalar orc t (den w) = RSome v0 /\ v = XPtr v0).
+    { destruct w; try congruence; destruct (rep_scalar orc t _) as [v0| | |]; try discriminate; inversion Hr; eauto. }
+    destruct Hr' as (v0 & Hr0 & Ev). subst v.
+    destruct (simple_type t) eqn:Est.
+    + destruct (simple_arm_value orc te t s w v0 L2 Est Hs0 Hs Hw Hr0) as (v' & Ha & Hp & Hx).
+      destruct (ptr_scalar_leaf t Hpt) as (s' & Hs' & _ & _ & _ & _ & Hpost). rewrite Hs0 in Hs'. inversion Hs'; subst s'.
+      rewrite Hpost in Hp. exists (XPtr v'). split.
+      * apply (dec_top_ptr_value orc opts te f t w s v' Hpt Hs0 Hn Ha Hp).
+      * specialize (Hx 198%nat). rewrite Hpost in Hx. exact Hx.
+    + destruct t; try discriminate. cbn in Hs0. inversion Hs0; subst s.
+      pose proof (int_arm_value orc k w v0 L1 Hs Hw Hr0) as Ha.
+      pose proof (int_rep_plain orc k w v0 Hs Hr0) as Hp.
+      exists (XPtr v0). split.
+      * apply (dec_top_ptr_value orc opts te f (TInt k) w (SInt k) v0 Hpt eq_refl Hn Ha Hp).
+      * change (xeqv spec_fuel (XPtr v0) (XPtr v0)) with (xeqv 199 v0 v0). apply xeqv_plain_refl. exact Hp.
+Qed.
+
+Theorem refuses_ptr_scalar_partial orc opts te f t w :
+  oracle_total orc ->
+  proved_ptr t = true -> scalar_tok w = true -> wf_tok w = true ->
+  representable orc opts te (S (S f)) (TPtr t) (den w) = RNone -> fits orc t w = true ->
+  exists e, dec_top orc opts te (S (S f)) (TPtr t) w = OErr e.
+Proof.
+  intros Ho Ht Hs Hw Hr Hf. apply andb_prop in Ht. destruct Ht as [Hps Hpt].
+  pose proof (proved_scalar_is_scalar t Hps) as Hsc.
+  rewrite (representable_ptr_scalar orc opts te f t w Hsc Hs) in Hr.
+  destruct (proved_scalar_leaf t Hps) as [s Hs0].
+  assert (Hn : w <> WNull) by (intros E; subst w; discriminate).
+  assert (Hr0 : rep_scalar orc t (den w) = RNone).
+  { destruct w; try congruence; destruct (rep_scalar orc t _) as [v0| | |]; try discriminate; reflexivity. }
+  assert (H : (exists e, run_action orc s (arm s w) w = SE e) \/ run_action orc s (arm s w) w = SDefaultArm).
+  { destruct (simple_type t) eqn:Est.
+    - apply (simple_arm_refuses orc t s w Ho Est Hs0 Hs Hw Hr0). destruct t; try discriminate; exact Hf.
+    - destruct t; try discriminate. cbn in Hs0. inversion Hs0; subst s. apply int_arm_refuses; assumption. }
+  destruct H as [[e He]|Hd].
+  - exists e. apply (dec_top_ptr_error orc opts te f t w s e Hpt Hs0 Hn He).
+  - apply (dec_top_ptr_default orc opts te f t w s Ho Hpt Hs0 Hn Hs Hw Hd).
 Qed.
